@@ -769,6 +769,9 @@ func (v *Verifier) evalCall(env *Env, e *Expr) *Val {
 		return &Val{T: pt, Term: UF("unbox$"+typeName(pt)+"$", SInt, a.Term)}
 	case "cancelled":
 		return boolVal(Select(hs.ghostArr("cancelled", SBool), arg(0).Term))
+	case "rcv":
+		// rcv(L, k): the receiver of the k-th call of the interface method labelled L
+		return &Val{T: types.NewInterfaceType(nil, nil), Term: Select(hs.heapGet("G$rcv$"+args[0].Op, ArrSort(SInt, SInt)), arg(1).Term)}
 	case "spawned":
 		return intVal(hs.ghostInt("spawned$" + args[0].Lit))
 	case "recvs":
